@@ -174,8 +174,13 @@ func (r *R) Gen(ctx sdk.Context, g *hx.Rng) string {
 		}
 		return b[g.Intn(len(b))], true
 	}
+	if len(user) > 0 && g.Chance(1, 25) { // genesis round trip in the middle of a history (C12)
+		if g.Chance(1, 2) {
+			return "token export"
+		}
+		return "token reimport"
+	}
 	var kind int
-	//            issue edit mint burn xfer swapfee deploy toerc fromerc hook fault params
 	//            issue edit mint burn xfer swapfee deploy toerc fromerc hook fault params evmtx
 	if r.mix == "c10" {
 		kind = g.Pick(8, 2, 12, 4, 2, 16, 8, 16, 14, 6, 5, 1, 10)
